@@ -4,7 +4,7 @@ from hypothesis import strategies as st
 
 from .. import gen
 from ..core import SubCheck, Violation
-from ..oracle import LAZY_CHOICES, lib, np_rows, np_flat, lazy_ra, expect_ragged, expect_refused, expect_unchanged, expect_array, jsonable
+from ..oracle import LAZY_CHOICES, lib, lib_twice, np_rows, np_flat, lazy_ra, expect_ragged, expect_refused, expect_unchanged, expect_array, jsonable
 
 RULE = ("Cases = (row-length vector with empty rows anywhere, dtype, content incl. negatives / duplicates / dtype extremes "
         "/ NaN / inf where the operation is exact, operation in {cumsum, add/subtract/bitwise_xor.accumulate, sort, unique "
@@ -42,7 +42,7 @@ def body_cumsum(case, ctx):
     a, rows, ra = common(case, ctx, "spell:" + case["spell"])
     ax = case["axis"]
     with np.errstate(all="ignore"):
-        got = lib(lambda: np.cumsum(ra, axis=ax) if case["spell"] == "np" else ra.cumsum(axis=ax))
+        got = lib_twice(lambda: np.cumsum(ra, axis=ax) if case["spell"] == "np" else ra.cumsum(axis=ax))
         if ax is None:
             expect_array(got, np.cumsum(np_flat(a)), "cumsum-flat")
         elif a["dt"] in gen.INT_DT:
@@ -68,7 +68,7 @@ def body_accumulate(case, ctx):
         if not exp.ok:
             ctx.label("numpy-refuses-not-asserted")
             return
-        got = lib(lambda: uf.accumulate(ra, axis=case["axis"]))
+        got = lib_twice(lambda: uf.accumulate(ra, axis=case["axis"]))
     expect_ragged(got, exp.value[:-1], "accumulate", exp_dtype=exp.value[-1].dtype if sum(a["lens"]) else None, uf=case["uf"])
     expect_unchanged(ra, rows, a["dt"], "accumulate-operand")
 
@@ -95,7 +95,7 @@ def body_accumulate_inexact(case, ctx):
 
 def body_sort(case, ctx):
     a, rows, ra = common(case, ctx)
-    got = lib(lambda: ra.sort(axis=case["axis"]) if case["axis"] is not None else ra.sort())
+    got = lib_twice(lambda: ra.sort(axis=case["axis"]) if case["axis"] is not None else ra.sort())
     expect_ragged(got, [np.sort(r) for r in rows], "sort", exp_dtype=a["dt"])
     expect_unchanged(ra, rows, a["dt"], "sort-operand")
 
@@ -108,7 +108,7 @@ def plain_case(draw, tier):
 def body_unique(case, ctx):
     a, rows, ra = common(case, ctx, "counts" if case["counts"] else "values-only", "axis:" + str(case["axis"]))
     ax, counts = case["axis"], case["counts"]
-    got = lib(lambda: np.unique(ra, axis=ax, return_counts=counts) if counts else np.unique(ra, axis=ax))
+    got = lib_twice(lambda: np.unique(ra, axis=ax, return_counts=counts) if counts else np.unique(ra, axis=ax))
     if ax is None:
         exp = np.unique(np_flat(a), return_counts=True)
         if counts:
@@ -144,7 +144,7 @@ def body_diff(case, ctx):
         kw = {}
         if case["axis"] is not None:
             kw["axis"] = case["axis"]
-        got = lib(lambda: np.diff(ra, n=n, **kw) if n != 1 or case["pass_n"] else np.diff(ra, **kw))
+        got = lib_twice(lambda: np.diff(ra, n=n, **kw) if n != 1 or case["pass_n"] else np.diff(ra, **kw))
     if any(len(r) <= n for r in rows):
         ctx.label("row-too-short")
         ctx.nt()
